@@ -354,6 +354,11 @@ func (w *world) view() string {
 func (w *world) restList() {
 	rec := httptest.NewRecorder()
 	w.api.ServeHTTP(rec, httptest.NewRequest(http.MethodGet, "/pd/api/v1/gc/safepoint", nil))
+	if rec.Code != http.StatusOK && rec.Code != http.StatusInternalServerError {
+		// the router answers 404 / redirects while the member is not the serving leader (lease lost under load): no verdict
+		leaderLost = true
+		return
+	}
 	raw, _ := w.raw.Load(gcKey)
 	if raw != "" {
 		if _, err := strconv.ParseUint(raw, 16, 64); err != nil {
@@ -669,6 +674,7 @@ func (w *world) exec(o *op) string {
 		case http.StatusInternalServerError:
 			return "BErr"
 		}
+		leaderLost = true // 404 / redirect: the member is not the serving leader at this moment
 		return fmt.Sprintf("BBad (* http %d *)", rec.Code)
 	case "seedmany":
 		now := time.Now().Unix()
@@ -1299,10 +1305,11 @@ func directed() [][]op {
 		// must not lose any of them; the smallest safe points and an expired entry sit right behind would-be page boundaries
 		{bulk(nil), {K: "svc", ID: "a1", TTL: 1000, SP: 500}, {K: "svc", ID: "t099-x", TTL: 1000, SP: 12}, {K: "svc", ID: "t049-x", TTL: 0, SP: 0},
 			{K: "svc", ID: "gc_worker", TTL: math.MaxInt64, SP: 60}, {K: "apidel", ID: "t099-x"}, {K: "svc", ID: "b2", TTL: 1000, SP: 55}},
-		// a lease renewal with an unchanged safe point while more than half of the TTL is left, then a request in the window
-		// in which only the renewed lease is still running (real time: TTL 6 s, renewal after 2.5 s, request after 7.2 s)
-		{{K: "svc", ID: "gc_worker", TTL: math.MaxInt64, SP: 30}, {K: "svc", ID: "a1", TTL: 6, SP: 40, Wait: -1}, {K: "svc", ID: "a1", TTL: 6, SP: 40, Wait: 2500},
-			{K: "svc", ID: "gc_worker", TTL: math.MaxInt64, SP: 60, Wait: 4700}, {K: "svc", ID: "b2", TTL: 1000, SP: 45}},
+		// a lease renewal with an unchanged safe point while at least half of the requested TTL is still left on the stored entry
+		// (entry found with 3 s left, renewed with TTL 6), then a request in the window in which only the renewed lease is
+		// still running (real time: 4.2 s later; the window stays open for two more seconds)
+		{{K: "svc", ID: "gc_worker", TTL: math.MaxInt64, SP: 30}, {K: "seed", ID: "a1", Rel: 3, SP: 40, Wait: -1}, {K: "svc", ID: "a1", TTL: 6, SP: 40},
+			{K: "svc", ID: "gc_worker", TTL: math.MaxInt64, SP: 60, Wait: 4200}, {K: "svc", ID: "b2", TTL: 1000, SP: 45}},
 		// every live safe point is MaxUint64
 		{{K: "svc", ID: "gc_worker", TTL: inf, SP: math.MaxUint64}, {K: "svc", ID: "a1", TTL: 1000, SP: math.MaxUint64}, {K: "svc", ID: "a1", TTL: 1000, SP: 5}},
 	}
